@@ -226,7 +226,8 @@ def check_history(ctx, c):
     call(cs, pos=arg(live_pos))
     for step in range(c["nsteps"]):
         ops = ["new_seed", "same_pos", "set_pos", "mutate_pos_in_place", "nearly_equal_pos", "cond_values", "cond_positions",
-               "model_inplace_refresh", "mean", "trend", "normalizer", "store_names", "krige_store", "krige_called_directly"]
+               "model_inplace_refresh", "mean", "trend", "normalizer", "store_names", "krige_store", "krige_called_directly",
+               "partial_store_call_after_new_conditions"]
         if cfg["variant"] == "ExtDrift":
             ops += ["ext_drift_targets", "ext_drift_targets"]
         op = str(rng.choice(ops))
@@ -279,7 +280,15 @@ def check_history(ctx, c):
             elif op == "store_names":
                 kw["store"] = [["a", "b", "c"], True, ["field", "raw_field", "raw_krige"], "only", False, [True, False, False]][int(rng.integers(0, 6))]
             elif op == "krige_store":
-                kw["krige_store"] = [["kf", "kv"], True, False, [False, "kv2"]][int(rng.integers(0, 4))]
+                kw["krige_store"] = [["kf", "kv"], True, False, [False, "kv2"], [True, False], ["kf3", False], [False, False]][int(rng.integers(0, 7))]
+            elif op == "partial_store_call_after_new_conditions":
+                # an intermediate call that keeps only part of the kriging results, right after the conditions changed
+                cfg["cond_pos"] = (rng.uniform(0, 10, size=(dim, n)) + offset).tolist()
+                k.set_condition(np.array(cfg["cond_pos"]), np.array(cfg["cond_val"]),
+                                **({"ext_drift": np.array(cfg["ext_cond"])} if cfg["variant"] == "ExtDrift" else {}))
+                extra = {"ext_drift": ext_t} if cfg["variant"] == "ExtDrift" else {}
+                cs(krige_store=[[True, False], [False, True], [False, False], ["kf4", False]][int(rng.integers(0, 4))],
+                   store=bool(rng.random() < 0.5), **extra)
             elif op == "ext_drift_targets":
                 ext_t = rng.normal(size=(1, npt))
             elif op == "krige_called_directly":
